@@ -87,3 +87,18 @@ package rep
 //@
 //@ func (*context).RecvMsg
 //@   ensures isnil(result1) ==> result0 != nil
+//@
+//@ func (*context).RecvMsg
+//@   at call:Unlock#3 set waiting = true
+//@   ensures waiting ==> !c.recvWait
+//@
+//@ func (*context).SendMsg
+//@   before select#1 assert bestEffort ==> timeQ == closedQ
+//@   before select#1 assert !bestEffort && c.sendExpire > 0 ==> timer_d(timeQ) == c.sendExpire
+//@   before select#1 assert !bestEffort && c.sendExpire <= 0 ==> timeQ == nilQ
+//@   ensures sel("select#1") == 2 && !c.bestEffort ==> result == protocol.ErrSendTimeout
+//@
+//@ func (*context).RecvMsg
+//@   before select#1 assert expireTime > 0 ==> timer_d(wq) == expireTime
+//@   before select#1 assert expireTime <= 0 ==> wq == nilQ
+//@   ensures sel("select#1") == 1 ==> result0 == nil && result1 == protocol.ErrRecvTimeout
